@@ -58,6 +58,14 @@ func NewHTTPProxy(
 			// therefore it doesn't make sense to keep them alive.
 			DisableKeepAlives: true,
 		},
+		// A response can race with the request timing out: when the timeout
+		// closes the stream to the upstream, the upstream (such as the Piko
+		// agent) may still answer the cancelled request on the half-closed
+		// stream. Once the request context is done the outcome is the
+		// timeout, not whatever arrives afterwards.
+		ModifyResponse: func(resp *http.Response) error {
+			return resp.Request.Context().Err()
+		},
 		ErrorLog:     logger.StdLogger(zapcore.WarnLevel),
 		ErrorHandler: rp.errorHandler,
 	}
